@@ -150,6 +150,29 @@ CLAIMED["C06"] = dict(
     design="DESIGN.md section 6, C06",
 )
 
+CLAIMED["C03"] = dict(
+    text="Lean 4 theorems: an empty script leaves the differ's working copy identical to the left document (for every matching, "
+    "any size), so together with working-copy = right document an empty script forces equal documents; the 'diff' formatter "
+    "returns the empty string exactly for the empty script. PARTIAL: 'equal documents give [] under every option combination' is "
+    "not proved (it depends on the similarity oracle pairing counterparts); it is decided on every run by the oracle on the "
+    "'equal' stream (each document against its copy incl. many identical siblings, repeated subtrees, duplicate unique-attribute "
+    "values, all three match modes) and the converse on all other streams, with the model tied to the code by U4/U5.",
+    note="Trusted: Lean kernel and standard axioms; models validated by U4/U5; XML-formatter output without markup for equal "
+    "documents is part of the C08-C10 machinery.",
+    technique="Lean 4 proof (replay corollary) + model/code correspondence + emptiness oracle on equal/different document streams",
+    design="DESIGN.md section 6, C03",
+)
+CLAIMED["C17"] = dict(
+    text="Lean 4 counting theorem over the script generator, for every matching and any size: at most |R| inserts, |R| renames, "
+    "|R| text updates and |R| tail updates (C17_bounds_partial); the attribute phase emits attribute actions only. PARTIAL: the "
+    "remaining bounds (deletes <= |L|, moves <= 2|R|, attribute actions), 'no created node is deleted' and 'every action changes "
+    "the document' are decided per run: counting oracle on the real script plus a strict replay in the Lean interpreter that "
+    "flags any action leaving the id-tree or the document value unchanged. Known finding R1 (moves past value-identical siblings).",
+    note="Trusted: Lean kernel and standard axioms; model validated by U5; replay oracle uses the Lean strict interpreter.",
+    technique="Lean 4 proof (counting invariant over the generator fold) + correspondence + change-detecting replay oracle",
+    design="DESIGN.md section 6, C17",
+)
+
 NOT_YET = {}
 
 
